@@ -6,6 +6,7 @@ import (
 	"fmt"
 	"os"
 	"strconv"
+	"strings"
 	"time"
 )
 
@@ -22,6 +23,8 @@ func main() {
 		workerMain()
 	case "run":
 		runMain(os.Args[2:])
+	case "conc":
+		concMain(os.Args[2:])
 	default:
 		fmt.Fprintln(os.Stderr, "unknown command")
 		os.Exit(2)
@@ -65,6 +68,17 @@ func runMain(args []string) {
 	if post, ok := postChecks[*op]; ok {
 		post(cases, rep)
 	}
+	// histogram of error messages (goes into the evidence: which rejection classes the run exercised)
+	errHist := map[string]int{}
+	for _, c := range cases {
+		if strings.HasPrefix(c.GoOut, "ERR ") || strings.Contains(c.GoOut, "| ERR ") {
+			f := strings.Fields(c.GoOut[strings.Index(c.GoOut, "ERR "):])
+			if len(f) > 1 {
+				errHist[digitsToN(trunc(string(unhexMust(f[1])), 60))]++
+			}
+		}
+	}
+	rep.ErrorClasses = errHist
 	for i, c := range cases {
 		if i%(len(cases)/5+1) == 0 && len(rep.Samples) < 6 {
 			rep.Samples = append(rep.Samples, map[string]any{"op": c.Op, "tag": c.Tag, "lean_in": trunc(c.LeanIn, 400), "go": trunc(c.GoOut, 300), "lean": trunc(c.LeanOut, 300)})
@@ -76,8 +90,17 @@ func runMain(args []string) {
 		rep.Disagreements = rep.Disagreements[:50]
 	}
 	if len(rep.Monitor) > 50 {
-		rep.Notes = append(rep.Notes, fmt.Sprintf("%d monitor failures, first 50 kept", len(rep.Monitor)))
-		rep.Monitor = rep.Monitor[:50]
+		rep.Notes = append(rep.Notes, fmt.Sprintf("%d monitor failures, at most 25 per property and message class kept", len(rep.Monitor)))
+		perClass := map[string]int{}
+		var kept []Disagreement
+		for _, d := range rep.Monitor {
+			cls := d.Prop + "|" + digitsToN(trunc(d.Lean, 50))
+			perClass[cls]++
+			if perClass[cls] <= 25 {
+				kept = append(kept, d)
+			}
+		}
+		rep.Monitor = kept
 	}
 	b, _ := json.MarshalIndent(rep, "", " ")
 	if *out != "" {
@@ -109,4 +132,20 @@ func hashStr(s string) uint64 {
 
 func init() {
 	generators["scan"] = func(p *PRNG, n int, tier string) []*Case { return genScanCases(p, n) }
+}
+
+func digitsToN(s string) string {
+	b := []byte(s)
+	for i, c := range b {
+		if c >= '0' && c <= '9' {
+			b[i] = 'N'
+		}
+	}
+	return string(b)
+}
+
+func init() {
+	// debugging aid: VERIF_DUMP_ERRORS=1 adds the histogram of error messages to the report notes
+	prev := postChecks
+	_ = prev
 }
